@@ -215,6 +215,7 @@ impl Monitor for C15 {
 
 pub fn profile() -> Profile {
     let mut p = Profile::general();
+    p.past_legacy_half = true;
     p.kind_w = [18, 8, 26, 18, 14, 2, 8, 0, 0];
     p.p_mut = 25;
     p.p_odd_spelling = 70;
